@@ -63,6 +63,16 @@ impl Reassembler {
         let h = s.data[0];
         let (fin, fir, seq) = (h & FIN != 0, h & FIR != 0, h & 0x3F);
         let payload = &s.data[1..];
+        if s.broadcast {
+            // broadcast fragments must fit one segment
+            if fir {
+                self.cur = None;
+            }
+            if fir && fin && payload.len() <= self.max {
+                return Some(Delivered { src: s.src, dst: s.dst, data: payload.to_vec() });
+            }
+            return None;
+        }
         if fir {
             self.cur = None;
             if payload.len() > self.max {
